@@ -21,6 +21,7 @@ import (
 	"github.com/oasisprotocol/oasis-core/go/common/sgx"
 	"github.com/oasisprotocol/oasis-core/go/common/version"
 	registry "github.com/oasisprotocol/oasis-core/go/registry/api"
+	roothash "github.com/oasisprotocol/oasis-core/go/roothash/api"
 	"github.com/oasisprotocol/oasis-core/go/roothash/api/block"
 	"github.com/oasisprotocol/oasis-core/go/roothash/api/commitment"
 	"github.com/oasisprotocol/oasis-core/go/roothash/api/message"
@@ -96,6 +97,54 @@ func testRuntime(seed string, ent signature.PublicKey, tee node.TEEHardware) *re
 	}
 	rt.Genesis.StateRoot.Empty()
 	return rt
+}
+
+// evidenceSeeds builds valid (properly signed) equivocation evidence of both kinds for a runtime
+// ID: executor evidence whose two success commitments differ in exactly one of io_root,
+// state_root, messages_hash; success vs failure; proposal evidence differing in batch hash and in
+// previous hash. Also an ExecutorCommit transaction body.
+func evidenceSeeds(signer signature.Signer, rtID common.Namespace) []*Seed {
+	var out []*Seed
+	prev := hash.NewFromBytes([]byte("c16 previous block"))
+	r1, r2 := hash.NewFromBytes([]byte("c16 root 1")), hash.NewFromBytes([]byte("c16 root 2"))
+	var empty hash.Hash
+	empty.Empty()
+	mk := func(io, st, msgs *hash.Hash, failure commitment.ExecutorCommitmentFailure) commitment.ExecutorCommitment {
+		ec := commitment.ExecutorCommitment{NodeID: signer.Public(), Header: commitment.ExecutorCommitmentHeader{
+			SchedulerID: signer.Public(),
+			Header:      commitment.ComputeResultsHeader{Round: 7, PreviousHash: prev, IORoot: io, StateRoot: st, MessagesHash: msgs, InMessagesHash: &empty},
+		}}
+		if failure != commitment.FailureNone {
+			ec.Header.SetFailure(failure)
+		}
+		if err := ec.Sign(signer, rtID); err != nil {
+			panic(err)
+		}
+		return ec
+	}
+	full := mk(&r1, &r1, &empty, commitment.FailureNone)
+	add := func(name string, a, b commitment.ExecutorCommitment) {
+		ev := roothash.Evidence{ID: rtID, EquivocationExecutor: &roothash.EquivocationExecutorEvidence{CommitA: a, CommitB: b}}
+		out = append(out, &Seed{Name: "evidence executor " + name, Data: cbor.Marshal(&ev), CBOR: true, Aux: "evidence"})
+	}
+	add("io_root differs", mk(&r2, &r1, &empty, commitment.FailureNone), full)
+	add("state_root differs", mk(&r1, &r2, &empty, commitment.FailureNone), full)
+	add("messages_hash differs", mk(&r1, &r1, &r2, commitment.FailureNone), full)
+	add("failure vs success", mk(nil, nil, nil, commitment.FailureUnknown), full)
+	mkProp := func(prevHash, batch hash.Hash) commitment.Proposal {
+		p := commitment.Proposal{NodeID: signer.Public(), Header: commitment.ProposalHeader{Round: 7, PreviousHash: prevHash, BatchHash: batch}}
+		if err := p.Sign(signer, rtID); err != nil {
+			panic(err)
+		}
+		return p
+	}
+	for i, pp := range [][2]commitment.Proposal{{mkProp(prev, r1), mkProp(prev, r2)}, {mkProp(r1, r1), mkProp(prev, r1)}} {
+		ev := roothash.Evidence{ID: rtID, EquivocationProposal: &roothash.EquivocationProposalEvidence{ProposalA: pp[0], ProposalB: pp[1]}}
+		out = append(out, &Seed{Name: fmt.Sprintf("evidence proposal %d", i), Data: cbor.Marshal(&ev), CBOR: true, Aux: "evidence"})
+	}
+	xc := roothash.ExecutorCommit{ID: rtID, Commits: []commitment.ExecutorCommitment{full, mk(&r2, &r1, &empty, commitment.FailureNone)}}
+	out = append(out, &Seed{Name: "executor commit body", Data: cbor.Marshal(&xc), CBOR: true, Aux: "execcommit"})
+	return out
 }
 
 // --- target: commitment ------------------------------------------------------------
@@ -215,6 +264,7 @@ func (t *commitTarget) Init(rng *rand.Rand, _ string) error {
 		}
 		add(fmt.Sprintf("proposal batch %d", nb), "prop", p)
 	}
+	t.seeds = append(t.seeds, evidenceSeeds(t.signers[1], t.rtPlain.ID)...)
 	return nil
 }
 
@@ -261,6 +311,51 @@ func (t *commitTarget) pipelineEC(ec *commitment.ExecutorCommitment) error {
 
 func (t *commitTarget) Exec(in *Input) string {
 	switch in.Aux {
+	case "evidence":
+		var ev roothash.Evidence
+		if err := cbor.Unmarshal(in.Data, &ev); err != nil {
+			return "decode: " + err.Error()
+		}
+		err := ev.ValidateBasic()
+		_, _ = ev.Hash()
+		// Re-signed variant: both halves signed by one of our keys.
+		var ev2 roothash.Evidence
+		if cbor.Unmarshal(in.Data, &ev2) == nil {
+			sg := t.signers[1]
+			if x := ev2.EquivocationExecutor; x != nil {
+				x.CommitA.NodeID, x.CommitB.NodeID = sg.Public(), sg.Public()
+				_ = x.CommitA.Sign(sg, ev2.ID)
+				_ = x.CommitB.Sign(sg, ev2.ID)
+			}
+			if x := ev2.EquivocationProposal; x != nil {
+				x.ProposalA.NodeID, x.ProposalB.NodeID = sg.Public(), sg.Public()
+				_ = x.ProposalA.Sign(sg, ev2.ID)
+				_ = x.ProposalB.Sign(sg, ev2.ID)
+			}
+			if err2 := ev2.ValidateBasic(); err2 == nil {
+				return ""
+			}
+		}
+		_ = cbor.Marshal(&ev)
+		if err != nil {
+			return err.Error()
+		}
+		return ""
+	case "execcommit":
+		var xc roothash.ExecutorCommit
+		if err := cbor.Unmarshal(in.Data, &xc); err != nil {
+			return "decode: " + err.Error()
+		}
+		var first error
+		for i := range xc.Commits {
+			if err := t.pipelineEC(&xc.Commits[i]); err != nil && first == nil {
+				first = err
+			}
+		}
+		if first != nil {
+			return first.Error()
+		}
+		return ""
 	case "prop":
 		var p commitment.Proposal
 		if err := cbor.Unmarshal(in.Data, &p); err != nil {
@@ -310,6 +405,9 @@ func (t *commitTarget) Exec(in *Input) string {
 
 func (t *commitTarget) Canary() string {
 	for _, s := range t.seeds {
+		if s.Aux == "execcommit" {
+			continue // well-formed transaction body, not based on this target's block
+		}
 		if r := t.Exec(&Input{Data: s.Data, Aux: s.Aux}); r != "" && !strings.HasPrefix(s.Name, "commit synth") {
 			return fmt.Sprintf("seed %q rejected: %s", s.Name, r)
 		}
